@@ -149,6 +149,16 @@ impl Check for C06 {
             }
             cell.push_str(&format!("/rank{}/last{}/o{}w{}i{}/away{}/inv{}", best, last_member as u8, vu.modes.is_oper() as u8, vu.modes.w as u8, vu.modes.i as u8, vu.away.is_some() as u8, !vu.invited.is_empty() as u8));
             params.insert("victim_cell".to_string(), cell);
+            // sometimes the victim has just invited somebody to one of its channels (the invitation must outlive the
+            // victim and, if the victim was the last member, the channel)
+            if !vchans.is_empty() && r2.chance(1, 3) {
+                let ch = vchans[r2.below(vchans.len())].clone();
+                let cands: Vec<String> = g.m.users.values().filter(|u| u.nick != vnick && !u.chans.contains(&ch)).map(|u| u.nick.clone()).collect();
+                if !cands.is_empty() {
+                    let inv = cands[r2.below(cands.len())].clone();
+                    g.say(victim, &format!("INVITE {} {}", inv, ch));
+                }
+            }
             let invited_others: Vec<(String, String)> = g.m.users.values().filter(|u| u.nick != vnick).flat_map(|u| u.invited.iter().map(move |c| (u.nick.clone(), c.clone()))).collect();
             params.insert("flags".to_string(), format!("{}{}{}{}", if last_member { "victim_last_member " } else { "" }, if best > 0 { "victim_had_rank " } else { "" }, if vu.modes.is_oper() { "victim_oper " } else { "" }, if !invited_others.is_empty() { "victim_invited_other " } else { "" }));
             // other registered nicks to audit too ("nothing else changes")
@@ -267,6 +277,10 @@ impl Check for C06 {
                     g.say(nc, &format!("JOIN {}", ch));
                     g.say(nc, &format!("MODE {}", ch));
                     g.say(nc, &format!("TOPIC {}", ch));
+                    if invited_others.iter().any(|(_, c)| c == ch) {
+                        // make the invitation matter: invite-only from now on
+                        g.say(nc, &format!("MODE {} +i", ch));
+                    }
                 }
             }
             // pending invitations of others still work
